@@ -64,7 +64,8 @@ TypeStr(sh) ==
 (*   [k |-> "block", app, ep, pre (path prefix string), n (children)]      *)
 (* The endpoint frame doubles as the outermost statement block.            *)
 
-EmptyState == [model |-> {}, locs |-> <<>>, scope |-> <<>>, file |-> "", stmts |-> <<>>]
+EmptyState == [model |-> {}, locs |-> <<>>, scope |-> <<>>, file |-> "", stmts |-> <<>>, calls |-> {}]
+\* calls: the targets <<application, endpoint>> of the call statements seen so far (for the linter, see LintWant)
 \* stmts: function (as a sequence of [app, ep, n]) counting top-level statements per endpoint so
 \* that a re-declared endpoint or an event fed by subscriptions keeps appending
 
@@ -235,7 +236,8 @@ StepStmt(st, d) ==
   LET r == NextStmt(st)
       s1 == Add(r.st, {<<"stmt", r.app, r.ep, r.path, d.kind, StmtPayload(st, d)>>}
                       \cup AttrFacts("stmt", <<r.app, r.ep, r.path>>, d))
-  IN Loc(s1, <<"stmt", r.app, r.ep, r.path>>, d)
+      s2 == IF d.kind = "call" THEN [s1 EXCEPT !.calls = @ \cup {<<IF d.app = "." THEN Top(st).app ELSE d.app, d.ep>>}] ELSE s1
+  IN Loc(s2, <<"stmt", r.app, r.ep, r.path>>, d)
 
 \* block headers: the model kind and payload for each surface keyword
 BlockKind(d) ==
@@ -312,4 +314,10 @@ MixinFacts(model) ==
          : m \in {x \in model : x[1] = "mixin"}}
 
 FinalModel(st) == st.model \cup MixinFacts(st.model)
+
+\* Beyond the listed properties: the linter (pkg/parse/linter.go) warns about exactly the calls whose target
+\* application is not declared, or is declared without the called endpoint (simple endpoints; one warning kind per call)
+LintWant(st) ==
+  {<<"Application", c[1], c[2]>> : c \in {x \in st.calls : <<"app", x[1]>> \notin st.model}}
+  \cup {<<"Endpoint", c[1], c[2]>> : c \in {x \in st.calls : <<"app", x[1]>> \in st.model /\ <<"ep", x[1], x[2]>> \notin st.model}}
 =============================================================================
